@@ -2,7 +2,7 @@
    model enumerates a list the specification (Spec.v) defines, in order, and
    stops exactly when its consumer says so. *)
 From FoxBase Require Import Bytes.
-From FoxC18 Require Import Cidr Types GoStd ParseIP Spec Entries.
+From FoxC18 Require Import Cidr Types GoStd ParseIP GenRanges Spec Entries.
 From Coq Require Import Lia.
 Open Scope N_scope.
 
@@ -281,12 +281,12 @@ Section ItemsProofs.
           end).
   Proof.
     unfold parse_forwarded_list_item.
-    pose proof (take_is _ _ 4 (split_seq_is ";" fwd)) as Ht.
+    pose proof (take_is _ _ forwarded_max_parts (split_seq_is ";" fwd)) as Ht.
     rewrite (Ht bytes). clear Ht.
-    pose proof (for_fold (firstn (N.to_nat 4) (split_on ";" fwd)) []) as Hf.
-    destruct (fold_stop for_yield (firstn (N.to_nat 4) (split_on ";" fwd)) []) as [forPart k].
+    pose proof (for_fold (firstn (N.to_nat forwarded_max_parts) (split_on ";" fwd)) []) as Hf.
+    destruct (fold_stop for_yield (firstn (N.to_nat forwarded_max_parts) (split_on ";" fwd)) []) as [forPart k].
     simpl fst in Hf. subst forPart.
-    unfold spec_for_value. change (N.to_nat 4) with 4%nat.
+    unfold spec_for_value. change (N.to_nat forwarded_max_parts) with 4%nat.
     destruct (find _ _) as [[[k0 v]|]|].
     - rewrite trim_matched_ends_quote.
       destruct (spec_unquote (trim_space v)) as [|c t]; [reflexivity|].
